@@ -1,13 +1,16 @@
 SPECIFICATION Spec
 CONSTANTS
-  NT = 3
+  NT = 2
   Prog <- TscProg
   Kind = "tsc"
   Sizes = {1, 2, 3}
   MaxResize = 2
+  MaxFail = 1
+  KwClass <- KwClasses
   Variant = "code"
 INVARIANT BodyOnce
 INVARIANT BodyExclusive
+INVARIANT ValueFresh
 VIEW View
 CHECK_DEADLOCK FALSE
 ACTION_CONSTRAINT Dump
